@@ -43,3 +43,64 @@ Fixpoint first_bad (st : cstate) (p : list op) (os : list obs) (i : nat) : optio
       else Some (i, c, map (fun h => abs_row (h_row h)) (s_hs st1))
   | _, _ => None
   end.
+
+(* ---- the property checked on the OBSERVED behaviour, without the concrete step function ---------------------
+   spec_ok replays the program on the PURE interpreter (values only, CopyTo = assignment: the statement of the
+   property) and compares every observation with it: result codes and the values of the handles the harness
+   read back.  Capacities are ignored (they are not part of the property).  It does not use cstep. *)
+Definition check_aval (st : astate) (x : nat * vrow) : bool :=
+  match arow_of st (fst x) with
+  | Some r => vrow_eqb r (snd x)
+  | None => false
+  end.
+Fixpoint spec_run (st : astate) (p : list op) (os : list obs) : bool :=
+  match p, os with
+  | [], [] => true
+  | o :: p', (code, vals, _) :: os' =>
+      let '(st1, c) := astep pmetric_schema st o in
+      Nat.eqb c code && forallb (check_aval st1) vals && spec_run st1 p' os'
+  | _, _ => false
+  end.
+Definition spec_ok (c : case) : bool := spec_run [] (fst c) (snd c).
+
+(* which clause is violated first: (step index, clause id, handle whose value is not the specified one)
+   clause ids: 1 copy-equals-source, 2 move (transfers / source empty), 3 move-and-append, 4 remove-if, 5 sort,
+   6 read-only (panic expected or data changed), 7 append / put / set / ensure-capacity / from-raw (local operation
+   result), 8 independence (a handle the step must not touch changed), 9 new handle not empty, 0 result code *)
+Definition clause_of (o : op) : nat :=
+  match o with
+  | OCopySlot _ _ _ _ _ _ _ => 1 | OCopyRow _ _ _ _ _ => 1
+  | OMoveSlot _ _ _ _ _ _ => 2 | OMoveRow _ _ _ _ _ => 2
+  | OMoveAppend _ _ _ _ _ _ _ => 3
+  | OLocal _ _ (LRemoveIf _ _) => 4
+  | OLocal _ _ (LSort _ _) => 5
+  | OLocal _ _ _ => 7
+  | ONew _ => 9
+  | OReadOnly _ => 6
+  end.
+Definition op_writes (o : op) (h : nat) : bool :=
+  match o with
+  | ONew _ => false | OReadOnly _ => false
+  | OLocal h' _ _ => Nat.eqb h' h
+  | OCopySlot _ _ _ _ h2 _ _ => Nat.eqb h2 h
+  | OCopyRow _ _ _ h2 _ => Nat.eqb h2 h
+  | OMoveSlot h1 _ _ h2 _ _ => Nat.eqb h1 h || Nat.eqb h2 h
+  | OMoveRow _ h1 _ h2 _ => Nat.eqb h1 h || Nat.eqb h2 h
+  | OMoveAppend _ h1 _ _ h2 _ _ => Nat.eqb h1 h || Nat.eqb h2 h
+  end.
+Fixpoint spec_verdict_from (st : astate) (p : list op) (os : list obs) (i : nat) : option (nat * nat * nat) :=
+  match p, os with
+  | o :: p', (code, vals, _) :: os' =>
+      let '(st1, c) := astep pmetric_schema st o in
+      if negb (Nat.eqb c code) then Some (i, (if Nat.eqb c 1 || Nat.eqb code 1 then 6 else 0), 0)
+      else match filter (fun x => negb (check_aval st1 x)) vals with
+           | x :: _ => Some (i, (if Nat.eqb c 1 then 6 else if op_writes o (fst x) then clause_of o else 8), fst x)
+           | [] => spec_verdict_from st1 p' os' (S i)
+           end
+  | _, _ => None
+  end.
+Definition spec_verdict (c : case) : option (nat * nat * nat) := spec_verdict_from [] (fst c) (snd c) 0.
+
+(* what the driver evaluates on every case in ONE pass: the concrete model reproduces the observation (values, codes,
+   capacities) AND the observation conforms to the pure semantics; props/C07/check.py then asks spec_verdict on the failing ones *)
+Definition check_both (c : case) : bool := check_case c && spec_ok c.
